@@ -4,10 +4,13 @@ import (
 	"github.com/vulcand/oxy/v2/zverif/c01"
 	"github.com/vulcand/oxy/v2/zverif/c02"
 	"github.com/vulcand/oxy/v2/zverif/c03"
+	"github.com/vulcand/oxy/v2/zverif/c14"
 	"github.com/vulcand/oxy/v2/zverif/c17"
 )
 
 func init() {
+	parts["c14"] = c14.Run
+	replays["c14"] = c14.Replay
 	parts["c03"] = c03.Run
 	replays["c03"] = c03.Replay
 	parts["c02"] = c02.Run
